@@ -38,9 +38,9 @@ manifest = {
     "setup_cmd": "./setup.sh",
     "hooks": {
         "guard": "cosmian_cover_crypt_verif",
-        "enable": "no hooks are needed: everything is observed through the public API and the serialised bytes (RUSTFLAGS='--cfg cosmian_cover_crypt_verif' would enable them if any existed)",
+        "enable": "harness/.cargo/config.toml sets rustflags = [\"--cfg\", \"cosmian_cover_crypt_verif\"] for every build of the harness (which compiles /repo as a path dependency); the one hook is `pub mod verif_hooks` in src/lib.rs, a re-export of the internal data structures Dict / RevisionMap / RevisionVec (no behaviour added); everything else is observed through the public API and the serialised bytes",
         "baseline_off_cmd": "cd /repo && cargo test --workspace --no-fail-fast --offline",
-        "source_commits": [],
+        "source_commits": ["55887c9"],
         "add_only": True,
     },
     "engines": [
